@@ -8,6 +8,7 @@ import FqModel.Serial.Bencode
 import FqModel.Serial.Bson
 import FqModel.Serial.Json
 import FqModel.Serial.Ber
+import FqModel.Serial.Ties
 /-! driver for C16
 
   `<format> <hex of the input> <kind> <source value>` TAB `<observation of fq -d <format> torepr>`
@@ -15,6 +16,7 @@ import FqModel.Serial.Ber
           | trunc     the input is a strict prefix of an encoding of the source value
           | trail:<n> a complete encoding followed by <n> further bytes
           | bad       the input is not an encoding of any value (the source value on the line is ignored)
+          | any       an arbitrary input (first-byte sweeps): no source value, fq's observation must equal the model's
      observation = err                       root `._error` is set (decode error)
                  | reprerr                   decode fine, `torepr` raised a jq error
                  | ok <value> <gaps>         <gaps> = `-` or `g<start byte>:<hex>` joined by `+`
@@ -44,9 +46,16 @@ def models (fmt : String) : Option ((Bytes → Res (V × Bytes)) × Option (Byte
   | "cbor" => some (Cbor.decode, some Cbor.decodeFixed, "cbor-indef-string-break")
   | "bencode" => some (Bencode.decode, none, "")
   | "bson" => some (Bson.decode, none, "")
-  | "asn1_ber" => some (Ber.decode, some Ber.decodeFixed, "asn1-ber-zero-length")
+  | "asn1_ber" => some (Ber.decodeX, some Ber.decodeXFixed, "asn1-ber-zero-length")
   | "json" => some (Json.decode, none, "")
   | "jsonl" => some (Json.decodeLines, none, "")
+  | _ => none
+
+/-- the proved model of a format when the driver runs an extended one: they must agree wherever the proved
+    model is defined -/
+def provedModel (fmt : String) : Option (Bytes → Res (V × Bytes)) :=
+  match fmt with
+  | "asn1_ber" => some Ber.decode
   | _ => none
 
 def expected (kind : String) (src : V) (input : Bytes) : Option String :=
@@ -54,6 +63,7 @@ def expected (kind : String) (src : V) (input : Bytes) : Option String :=
   if kind == "full" then some s!"ok {v} -"
   else if kind == "trunc" then some "err"
   else if kind == "bad" then some "err"
+  else if kind == "any" then some ""              -- no source value: the model alone is the oracle
   else match kind.splitOn ":" with
     | ["trail", ns] =>
       match ns.toNat? with
@@ -95,9 +105,16 @@ def stepC16 (op obs : String) : String :=
       match expected kind src input with
       | none => "BADOP kind"
       | some exp =>
+        let crossOk := match provedModel fmt with
+          | some pm => (match showRes input.length (pm input) with
+            | some mp => mp == (showRes input.length (asIs input)).getD ""
+            | none => true)
+          | none => true
+        if !crossOk then "BADOP proved-model-and-extended-model-disagree" else
         match showRes input.length (asIs input) with
         | none => "BADOP model-fuel-or-unmodelled-branch"
         | some m =>
+          if kind == "any" then (if m == obs then "OK" else s!"DIVERGE model={m}") else
           let div := if m == obs then "" else s!" ;DIVERGE model={m}"
           if obs == exp then (if div.isEmpty then "OK" else s!"DIVERGE model={m}")
           else
@@ -118,4 +135,11 @@ def stepC16 (op obs : String) : String :=
     | _, _, none => "BADOP source-value"
   | _ => "BADOP op"
 
-def main : IO Unit := run stepC16
+/-- `drv_c16 --ties`: one line per format `<format> <facts|nofacts> <text|notext>` — which ties to the current
+    source hold in this run (FqModel/Serial/Ties.lean); the harness reads it to choose its generators -/
+def main (args : List String) : IO Unit := do
+  if args.contains "--ties" then
+    for (f, facts, text) in Ties.all do
+      IO.println s!"{f} {if facts then "facts" else "nofacts"} {if text then "text" else "notext"}"
+  else
+    run stepC16
